@@ -15,6 +15,18 @@ func init() {
 		TFunc{Dir: w, Recv: "StreamFrame", Name: "MaxDataLen"},
 		TFunc{Dir: w, Recv: "CryptoFrame", Name: "Length"},
 		TFunc{Dir: w, Recv: "CryptoFrame", Name: "MaxDataLen"},
+		TFunc{Dir: w, Recv: "StreamDataBlockedFrame", Name: "Length"},
+		TFunc{Dir: w, Recv: "NewTokenFrame", Name: "Length"},
+		TFunc{Dir: w, Recv: "RetireConnectionIDFrame", Name: "Length"},
+		TFunc{Dir: w, Recv: "NewConnectionIDFrame", Name: "Length"},
+		TFunc{Dir: w, Recv: "ConnectionCloseFrame", Name: "Length"},
+		TFunc{Dir: w, Recv: "DatagramFrame", Name: "Length"},
+		TFunc{Dir: w, Recv: "DatagramFrame", Name: "MaxDataLen"},
+		TFunc{Dir: w, Recv: "AckFrequencyFrame", Name: "Length"},
+		TFunc{Dir: w, Recv: "PathChallengeFrame", Name: "Length"},
+		TFunc{Dir: w, Recv: "PingFrame", Name: "Length"},
+		TFunc{Dir: w, Recv: "HandshakeDoneFrame", Name: "Length"},
+		TFunc{Dir: w, Recv: "ImmediateAckFrame", Name: "Length"},
 		TFunc{Dir: w, Name: "ShortHeaderLen"},
 		TFunc{Dir: w, Name: "encodeAckDelay"},
 	)
